@@ -13,7 +13,7 @@ POLICIES = ["pct", "starve", "starve", "yield", "yield", "yield", "random", "rr"
 def gen_session(rng, quick):
     """returns (workloads, steps, sched, family)"""
     fam = rng.choice(["same_gtf", "same_gtf", "diff_gtf", "adopt_rebuild", "mixed_flags", "same_basename", "shared_genedb_output",
-                      "peer_killed", "deleted_owner"])
+                      "peer_killed", "deleted_owner", "adopt_replace"])
     n = rng.choice([2, 2, 3] if quick else [2, 2, 3, 4])
     w0 = dict(TINY, seed=rng.randrange(1 << 20))
     w1 = dict(TINY, seed=rng.randrange(1 << 20), genes_per_chr=3)
@@ -48,6 +48,18 @@ def gen_session(rng, quick):
             workloads.append({"spec": w1})
         steps.append({"run": [{"wl": i % len(workloads), "opts": opts(), "out": names[i]} for i in range(max(2, n))],
                       "fault": {"kind": "kill_actor", "index": rng.randrange(4, 110), "phase": rng.choice(["before", "after"])}})
+    elif fam == "adopt_replace":
+        # an earlier run P registered its conversion of annotation 0; now P's folder is re-used (--force) for annotation 1, which
+        # has the same file name, while a peer with annotation 0 looks the cache up and adopts <out_P>/<name>.db
+        workloads = [{"spec": w0, "same_basename_dir": True}, {"spec": w1, "same_basename_dir": True}]
+        steps.append({"run": [{"wl": 0, "opts": {}, "out": "P"}], "sched": {"policy": "serial", "seed": 0}})
+        acts = [{"wl": 1, "opts": {}, "out": "P"}] + [{"wl": 0, "opts": {}, "out": names[i]} for i in range(max(1, n - 1))]
+        rng.shuffle(acts)
+        st = {"run": acts}
+        if rng.random() < 0.6:
+            victim = [i for i, x in enumerate(acts) if x["out"] == "P"][0]
+            st["sched"] = {"policy": "starve", "seed": rng.randrange(1 << 20), "starve": [victim, 0, rng.choice([22, 30, 44, 60])]}
+        steps.append(st)
     elif fam == "deleted_owner":
         # an earlier run registered its conversion in the cache, then its database (the whole result folder, typically) was
         # deleted; the runs that look the annotation up now must convert for themselves
@@ -92,7 +104,7 @@ def judge(session_res, golden, workloads, steps):
         if ar["exit"] == "killed":
             continue        # the injected fault: this run is not judged, its peers are
         if ar["exit"] != 0:
-            out.append(("a:exit0", {"symptom": "exit%s:%s" % (ar["exit"], ar.get("failure_site")),
+            out.append(("a:exit0", {"out": a["out"], "symptom": "exit%s:%s" % (ar["exit"], ar.get("failure_site")),
                                     "clean_start": bool((a.get("opts") or {}).get("clean_start")),
                                     "adopted_modified": bool(ar.get("adopted_modified")),
                                     "foreign_db_exists_checked": bool(ar.get("foreign_db_exists_checked"))},
@@ -102,10 +114,10 @@ def judge(session_res, golden, workloads, steps):
         if g is not None and g["exit"] == 0:
             bad = sorted(k for k in set(g["digests"]) | set(ar["digests"]) if g["digests"].get(k) != ar["digests"].get(k))
             if bad:
-                out.append(("b:alone", {"symptom": "differs:" + ",".join(sorted(set(common.file_class(b) for b in bad)))},
+                out.append(("b:alone", {"out": a["out"], "symptom": "differs:" + ",".join(sorted(set(common.file_class(b) for b in bad)))},
                             "actor %s: outputs differ from the run alone: %s" % (a["out"], bad[:6])))
         if ar.get("db_digest") and ar.get("fresh_digest") and ar["db_digest"] != ar["fresh_digest"]:
-            out.append(("d:own_db", {"symptom": "db %s vs fresh %s" % (ar["db_digest"].split(":")[0], ar["fresh_digest"].split(":")[0]),
+            out.append(("d:own_db", {"out": a["out"], "symptom": "db %s vs fresh %s" % (ar["db_digest"].split(":")[0], ar["fresh_digest"].split(":")[0]),
                                      "foreign": ar.get("db_foreign")},
                         "actor %s used database %s whose content (%s) is not a conversion of its own annotation (%s)" % (
                             a["out"], ar.get("db_used"), ar["db_digest"], ar["fresh_digest"])))
